@@ -212,7 +212,37 @@ struct Case {
     persistent: bool,
 }
 
+/// delete-and-recreate with the very timestamp a parked compare-and-swap / patch / increment read:
+/// generation identity must not be confused with timestamp equality
+fn gen_aba(rng: &mut Rng) -> Case {
+    let doc = rng.chance(1, 2);
+    let v0 = if doc { V::J(vec![1]) } else if rng.chance(1, 2) { V::C(3) } else { V::B(0) };
+    let v1 = if doc { V::J(vec![]) } else if matches!(v0, V::C(_)) { V::C(10) } else { V::B(1) };
+    let reader = match (&v0, rng.below(3)) {
+        (V::J(_), _) => Op::Patch(0, 7, Some(9)),
+        (V::C(_), 0) => Op::Incr(0, 5, Some(9)),
+        (_, _) => Op::Cas(0, v0.clone(), V::B(2), Some(9)),
+    };
+    let mut a = vec![Op::Upsert(0, v0, Some(5)), reader];
+    if rng.chance(1, 2) {
+        a.push(Op::Get(0));
+    }
+    let b = vec![Op::Delete(0, Some(*rng.pick(&[6u64, 7]))), Op::Upsert(0, v1, Some(5))];
+    let mut progs = vec![a, b];
+    if rng.chance(1, 3) {
+        progs.push(vec![Op::Get(0), Op::Get(0)]);
+    }
+    let n = progs.len() as u64;
+    // thread 0 first runs its preamble and reaches its guard, then the others interleave
+    let mut sched = vec![0usize; rng.range(3, 5) as usize];
+    sched.extend((0..rng.range(4, 14)).map(|_| rng.below(n) as usize));
+    Case { nkeys: 1, progs, sched, persistent: rng.chance(1, 12) }
+}
+
 fn gen_case(rng: &mut Rng) -> Case {
+    if rng.chance(1, 6) {
+        return gen_aba(rng);
+    }
     let nthreads = rng.range(2, 4) as usize;
     let nkeys = if rng.chance(2, 3) { 1 } else { 2 };
     let style = rng.below(3);
